@@ -1,7 +1,49 @@
+(* C05 extension T: team completion at the granularity of src/teams.c (micro-step machine Kernel/TeamFinish.v).
+   run false = the code as it is; run true = the leader's two waits of branch 1.1 swapped (independent change C05-3). *)
 From Coq Require Import List ZArith Bool Arith.
-From QV Require Import Kernel.TeamFinish Kernel.TeamFinishInv Kernel.TeamFinishLive.
+From QV Require Import Kernel.Ret Kernel.TeamFinish Kernel.TeamFinishInv Kernel.TeamFinishTheorems Kernel.TeamFinishSwapped
+  Kernel.TeamFinishFinal Kernel.TeamFinishRefine.
 Import ListNotations.
 
-Theorem tf_progress_under_invariant : forall s, inv s -> all_done s = true \/ exists l s', step false s l = Some s'.
-Proof. exact inv_progress. Qed.
-Print Assumptions tf_progress_under_invariant.
+Theorem tf_ret_after_all : forall tr a, let s := run false init tr in
+  (a < nt s)%nat -> (0 < fills (obj s a))%nat -> forall d, desc s a d -> (d < nt s)%nat /\ team_quiet s d.
+Proof. exact TeamFinishFinal.tf_ret_after_all. Qed.
+Print Assumptions tf_ret_after_all.
+
+Theorem tf_filled_once : forall tr t, let s := run false init tr in (t < nt s)%nat ->
+  (fills (obj s t) <= 1)%nat /\ (fills (obj s t) = 1%nat <-> lpc (ctl s t) = TeamFinish.LDone).
+Proof. exact TeamFinishFinal.tf_filled_once. Qed.
+Print Assumptions tf_filled_once.
+
+Theorem tf_no_use_after_free : forall tr, let s := run false init tr in
+  uaf s = false /\
+  forall k t, (k < nm s)%nat -> mteam (mem s k) = Some t -> mlive (mem s k) = true ->
+    freed (obj s t) = false /\ sincok (obj s t) = true /\ subsok (obj s t) = true.
+Proof. exact TeamFinishFinal.tf_no_use_after_free. Qed.
+Print Assumptions tf_no_use_after_free.
+
+Theorem tf_no_deadlock : forall tr, let s := run false init tr in
+  all_done s = true \/ exists l s', step false s l = Some s'.
+Proof. exact TeamFinishFinal.tf_no_deadlock. Qed.
+Print Assumptions tf_no_deadlock.
+
+Theorem tf_invariant_every_schedule : forall tr, inv (run false init tr).
+Proof. exact TeamFinishProofs.reach_inv. Qed.
+Print Assumptions tf_invariant_every_schedule.
+
+Theorem tf_refines_automaton_local : forall s l s' t, inv s -> step false s l = Some s' -> (t < nt s)%nat ->
+  abs_team s' t = abs_team s t \/ exists e, tstep (abs_team s t) e = Some (abs_team s' t).
+Proof. exact TeamFinishRefine.step_refines_local. Qed.
+Print Assumptions tf_refines_automaton_local.
+
+Theorem tf_new_team_is_init : forall s l s', inv s -> step false s l = Some s' -> nt s' = S (nt s) ->
+  abs_team s' (nt s) = team_init (is_ksub (tk (ctl s' (nt s)))).
+Proof. exact TeamFinishRefine.new_team_is_init. Qed.
+Print Assumptions tf_new_team_is_init.
+
+Theorem tf_swapped_waits_refuted :
+  exists tr, let s := run true init tr in
+    (0 < fills (obj s 0))%nat /\ (1 < nt s)%nat /\ desc s 0 1 /\ lpc (ctl s 1) = LNasc /\ uaf s = false /\
+    exists tr', uaf (run true s tr') = true.
+Proof. exact TeamFinishSwapped.swapped_waits_refuted. Qed.
+Print Assumptions tf_swapped_waits_refuted.
